@@ -2,6 +2,7 @@ package scheduler
 
 import (
 	"context"
+	"errors"
 	"strings"
 
 	"github.com/streamingfast/substreams/block"
@@ -310,4 +311,67 @@ func VerifC05Scheduler() {
 		sym.Assert(stages.LastStageCompleted(), "no-deadlock-outputs-written-at-quiescence")
 	}
 	_ = nStages
+}
+
+// VerifC16SchedulerFailure: a failed job or a failed merge ends the event loop
+// with exactly that error (nothing is swallowed, nothing else is scheduled
+// first), whatever the scheduler's state.
+func VerifC16SchedulerFailure() {
+	manifest.TestUseSimpleHash = true
+	ctx := reqctx.WithRequest(context.Background(), &reqctx.RequestDetails{ProductionMode: true, OutputModule: "m"})
+	ctx = reqctx.WithReqStats(ctx, metrics.NewReqStats(&metrics.Config{}, zap.NewNop()))
+	mods := &pbsubstreams.Modules{Modules: []*pbsubstreams.Module{c05Store("s0", c05Src()), c05Map("m", c05Src(), c05StoreIn("s0"))}, Binaries: []*pbsubstreams.Binary{{Type: "wasm/rust-v1", Content: []byte{1}}}}
+	execGraph, err := exec.NewOutputModuleGraph("m", true, mods, 0)
+	if err != nil {
+		sym.Unreachable("graph-ok")
+		return
+	}
+	reqPlan, err := plan.BuildTier1RequestPlan(true, 10, 0, 0, 0, 20, 25, true)
+	if err != nil {
+		sym.Unreachable("plan-ok")
+		return
+	}
+	storeConfigs, err := store.NewConfigMap(sym.NewMemStore(), execGraph.Stores(), execGraph.ModuleHashes(), 0)
+	if err != nil {
+		sym.Unreachable("store-configs-ok")
+		return
+	}
+	sched := New(ctx, nil)
+	sched.Stages = stage.NewStages(ctx, execGraph, reqPlan, storeConfigs)
+	var jobs []c05Job
+	sched.WorkerPool = work.NewWorkerPool(ctx, 1, func(*zap.Logger) work.Worker { return &c05Worker{id: "w1", jobs: &jobs} })
+	sched.WorkerPool.VerifSkipRampup()
+	if sym.Choice("after-init", 2) == 1 {
+		sched.Init()
+		sched.Update(work.MsgScheduleNextJob{})
+	}
+	failure := errors.New("job failed: deterministic module failure")
+	var cmd loop.Cmd
+	if sym.Choice("kind", 2) == 0 {
+		cmd = sched.Update(work.MsgJobFailed{Unit: stage.Unit{Stage: 0, Segment: 0}, Error: failure})
+	} else {
+		cmd = sched.Update(stage.MsgMergeFailed{Unit: stage.Unit{Stage: 0, Segment: 0}, Error: failure})
+	}
+	// the command is a batch of one: the quit carrying the error
+	quits := 0
+	var run func(c loop.Cmd)
+	run = func(c loop.Cmd) {
+		if c == nil {
+			return
+		}
+		switch m := c().(type) {
+		case loop.BatchMsg:
+			for _, sub := range m {
+				run(sub)
+			}
+		case loop.QuitMsg:
+			quits++
+			sym.Assert(m.VerifErr() == failure, "loop-quits-with-the-job-error")
+		default:
+			sym.Unreachable("nothing-else-happens-after-a-failure")
+		}
+	}
+	run(cmd)
+	sym.Assert(quits == 1, "failure-quits-the-loop")
+	sym.Reach("failed")
 }
